@@ -28,6 +28,7 @@ type c09Prog struct {
 	Shared   bool       `json:"shared,omitempty"`   // the caller hands the SAME head slice to every load instead of a copy
 	Progress bool       `json:"progress,omitempty"` // pass a (drained) progress channel
 	NoIO     bool       `json:"noIO,omitempty"`     // default codec: leave LogOptions.IO unset
+	Slow     int        `json:"slow,omitempty"`     // k > 0: one block of the log (the k-th, mod) takes 2.6 s to be read during the first ungated load - slow, not missing: nobody set a deadline, so the load waits for it
 	Rival    int        `json:"rival,omitempty"`    // k > 0: while an ungated load runs, another load of the same heads runs in the same process and gives up (deadline) after about k block reads; every read takes 1 ms meanwhile. What the rival does is no business of the load under test
 	Earlier  int        `json:"earlier,omitempty"`  // 0: the log is published once; k > 0: every replica also published after each k-th operation of the history (and before the final merges)
 }
@@ -60,6 +61,9 @@ func genC09(t *rapid.T) c09Prog {
 	p.Earlier = rapid.SampledFrom([]int{0, 0, 1, 2, 3}).Draw(t, "earlierPublications")
 	if rapid.IntRange(0, 5).Draw(t, "withRival") == 4 {
 		p.Rival = rapid.IntRange(1, 12).Draw(t, "rival")
+	}
+	if rapid.IntRange(0, 249).Draw(t, "withSlowBlock") == 166 {
+		p.Slow = rapid.IntRange(1, 1<<10).Draw(t, "slowBlock")
 	}
 	n := rapid.IntRange(1, 3).Draw(t, "nloads")
 	for i := 0; i < n; i++ {
@@ -145,6 +149,7 @@ func runC09(tb ev.TB, p c09Prog) ev.Result {
 	wantValues := w.Reg.RefSort(w.Order, r.Model)
 	srcValues := world.Hashes(r.Log.Values())
 	nt := false
+	slowUsed := false
 	rivals := 0
 	var classes []string
 	var reported []string
@@ -168,6 +173,14 @@ func runC09(tb ev.TB, p c09Prog) ev.Result {
 		var lerr error
 		var got *loadedLog
 		badContent := ""
+		var slowCid cid.Cid
+		if p.Slow > 0 && !spec.Gated && !slowUsed && !p.Timeout {
+			slowUsed = true
+			all := r.Model.Sorted()
+			slowCid = w.Reg.Get(all[p.Slow%len(all)]).Cid
+			w.Store.SetSlow(slowCid, 2600*time.Millisecond)
+			classes = append(classes, "one-block-takes-2.6s")
+		}
 		rivalDone := make(chan struct{})
 		if p.Rival > 0 && !spec.Gated {
 			const read = time.Millisecond
@@ -187,6 +200,9 @@ func runC09(tb ev.TB, p c09Prog) ev.Result {
 			defer func() {
 				<-rivalDone
 				w.Store.SetDelay(0)
+				if slowCid.Defined() {
+					w.Store.SetSlow(slowCid, 0)
+				}
 			}()
 			l, err := doLoad(ctx, w.Store.API(), w, loader, manifest, jsonLog, startEntries(p.Shared, heads), hash, nil, spec.Concurrency, nil, 0, extra)
 			lerr = err
@@ -275,7 +291,7 @@ type loadedLog struct {
 
 func TestC09(t *testing.T) {
 	c := ev.Get("C09")
-	c.Rule = "a generated multi-replica program (default or link-key codec, both orderings, skip references from pointer counts up to 64) builds log states - in about one program in five the log continues, under its own id, a history of 1-9 entries written under another log id, which every replica holds from the start; one replica state is reloaded 1-3 times, each with a generated loader (manifest / JSON heads / head entries / head hash when single-headed), fetch concurrency in {default,1,2,3,16} and - in 3 of 4 loads - a gated store whose outstanding block reads are released in a generated order. In one program in six the ungated loads run next to a rival load of the same heads in the same process that gives up after 1-12 block reads (reads take 1 ms then). Every loaded entry must have the content it was written with (payload, links, clock, key, signature). The loaded log must have the same id, entry set (== model set), heads (== unreferenced in the model) and values (== reference sort when strict-total, permutation otherwise). Non-trivial = source with >= 2 heads or skip references and at least one read completed out of issue order; distinct = distinct program."
+	c.Rule = "a generated multi-replica program (default or link-key codec, both orderings, skip references from pointer counts up to 64) builds log states - in about one program in five the log continues, under its own id, a history of 1-9 entries written under another log id, which every replica holds from the start; one replica state is reloaded 1-3 times, each with a generated loader (manifest / JSON heads / head entries / head hash when single-headed), fetch concurrency in {default,1,2,3,16} and - in 3 of 4 loads - a gated store whose outstanding block reads are released in a generated order. In one program in six the ungated loads run next to a rival load of the same heads in the same process that gives up after 1-12 block reads (reads take 1 ms then). Now and then (one program in 250) one block takes 2.6 s to arrive during an ungated load without deadline: the load waits for it. Every loaded entry must have the content it was written with (payload, links, clock, key, signature). The loaded log must have the same id, entry set (== model set), heads (== unreferenced in the model) and values (== reference sort when strict-total, permutation otherwise). Non-trivial = source with >= 2 heads or skip references and at least one read completed out of issue order; distinct = distinct program."
 	c.Assumptions = []string{"completion orders are produced by a polling controller (settle window 300µs): every order it produces is legal, but a given schedule may map to different orders on a loaded machine; the realised order is stored in the replay file and enforced on replay", "the legacy codec is not reloaded (it cannot read back the v2 entries it writes)"}
 	ev.Check(t, "C09", genC09, runC09)
 }
